@@ -10,9 +10,11 @@ import (
 	"context"
 	"fmt"
 	"math/rand"
+	"os"
 	"regexp"
 	"strconv"
 	"strings"
+	"time"
 
 	"github.com/mithrandie/csvq/lib/parser"
 	"github.com/mithrandie/csvq/lib/query"
@@ -51,6 +53,7 @@ func runC05(seed int64, tier string, out string) {
 	}
 	distinct := map[string]bool{}
 	ctx := context.Background()
+	c05CaseVariantNames(meta)
 	for h := 0; h < nHist; h++ {
 		sc := newScratch()
 		tx := newTx(sc.Dir)
@@ -332,4 +335,46 @@ func runC05(seed int64, tier string, out string) {
 	runC05Multi(r, tier, out, meta, g)
 	meta.Notes = append(meta.Notes, fmt.Sprintf("distinct statement texts: %d", len(distinct)))
 	meta.write(out)
+}
+
+// corpus: two files whose names differ only in case (a case-sensitive file system).  A statement on one of them
+// must read and change that one; csvq keys its view cache by the upper-cased path (finding case-variant-file-alias).
+func c05CaseVariantNames(meta *Meta) {
+	progs := []struct{ sql, what string }{
+		{"SELECT * FROM `A.csv`; UPDATE `a.csv` SET v = 'changed'; COMMIT;", "UPDATE of a.csv after A.csv was read"},
+		{"SELECT * FROM `a.csv`; DELETE FROM `A.csv`; COMMIT;", "DELETE on A.csv after a.csv was read"},
+		{"UPDATE `a.csv` SET v = 'changed'; COMMIT;", "UPDATE of a.csv alone (control)"},
+	}
+	for _, p := range progs {
+		sc := newScratch()
+		upper, lower := "k,v\n1,upper\n", "k,v\n1,lower\n"
+		if err := os.WriteFile(sc.Path("A.csv"), []byte(upper), 0644); err != nil {
+			panic(err)
+		}
+		if err := os.WriteFile(sc.Path("a.csv"), []byte(lower), 0644); err != nil {
+			panic(err)
+		}
+		chk, _ := os.ReadFile(sc.Path("A.csv"))
+		if string(chk) != upper { // a case-insensitive file system: the scenario does not exist
+			sc.Close()
+			return
+		}
+		r := runCsvq(sc.Dir, []string{"--repository", sc.Dir, "--quiet", p.sql}, "", 20*time.Second)
+		a1, _ := os.ReadFile(sc.Path("A.csv"))
+		a2, _ := os.ReadFile(sc.Path("a.csv"))
+		sc.Close()
+		meta.Evaluations++
+		meta.Distribution["corpus:case-variant-names"]++
+		wantU, wantL := upper, lower
+		if strings.Contains(p.sql, "UPDATE `a.csv`") {
+			wantL = "k,v\n1,changed\n"
+		} else {
+			wantU = "k,v\n"
+		}
+		if r.Code != 0 || string(a1) != wantU || string(a2) != wantL {
+			meta.Direct = append(meta.Direct, DirectViolation{Key: "case-variant-file-alias",
+				What: fmt.Sprintf("%s: the statement must change exactly the file it names; A.csv = %q (expected %q), a.csv = %q (expected %q), exit %d %s", p.what, a1, wantU, a2, wantL, r.Code, strings.TrimSpace(r.Stderr)),
+				Case: map[string]interface{}{"program": p.sql, "A.csv_before": upper, "a.csv_before": lower, "A.csv_after": string(a1), "a.csv_after": string(a2), "tags": []string{"case-variant-file-alias"}}})
+		}
+	}
 }
